@@ -1,7 +1,7 @@
 #!/bin/bash
 # tools/prove.sh [module ...] : re-checks the TLAPS proofs under spec/ (default: every *_proofs.tla).
 # Prints one line per module: "PROVED <module> <n> obligations" or "NOT-PROVED <module>"; exit 0 iff all proved.
-cd /verif/spec || exit 2
+cd "$(dirname "$(readlink -f "$0")")/../spec" || exit 2
 MODS="$@"; [ -z "$MODS" ] && MODS=$(ls *_proofs.tla)
 rc=0
 for m in $MODS; do
